@@ -23,7 +23,7 @@ META = {
     "encoded": ["event.Monitor.__init__", "event.Monitor.elaborate", "event.Source", "event.EventMap.add",
                 "event.EventMap.index", "event.EventMap.sources", "event.EventMap.freeze", "event.EventMap.size"],
     "also": '9 and 17 (thorough 33) sources; triggers given as enum members',
-    "bounds": "n = 0..4 sources (thorough 0..6), all 3^n trigger assignments (thorough: all up to n=5, seeded "
+    "bounds": "n = 0..4 sources (thorough 0..6) exhaustively, plus monitors of 9, 17, 45, 70 (thorough also 33, 100, 130) sources, all 3^n trigger assignments (thorough: all up to n=5, seeded "
               "sample for n=6), sources added in permuted order; 2 frames free + 1 frame reset; EventMap: call "
               "sequences of <= 5 (thorough 6) calls over 3 sources with symbolic source choice",
     "outside": "behaviour under rst; more than 6 sources",
